@@ -113,7 +113,7 @@ prop('C03', COMMON +
       'Pending implies in the schedule and a thread asked (TOK-pending)', 'dormant handshake and fetch loop (ORD-C03-dormant, ORD-C10-fetch, TRY)', 'no job dropped or run twice (QD-*, TOK-requeue)', 'blocked sync callers stay registered until they leave and are told on every reschedule (QD-waiters)', 'wakers resume parked queues (PARK-wake)'],
      ['that a woken pool thread is eventually scheduled by the OS', 'quiescence of a whole program'],
      [(RP.tok_leak, None), (RP.pa_rules, {'PA-stuck', 'PA'}), (RP.tok_resched, None), (RP.tok_pending, None), (RP.tok_requeue, None), (RQ.qd_queue, None), (RQ.qd_schedule, None), (RQ.qd_once, None),
-      (RL.try_rule, None), (RO.c03_dormant, None), (RO.c10_fetch, None), (RP.park_wake, None), (RQ.qd_wake_blocked, None), (RP.tr_roles, None), (RP.tr_dead, None), (RQ.qd_run, None), (RO.c10_thread, None), (RO.rs_strength, None, ['SchedulerCore']), (RU.ua_leak, None), (RE.eo, None, ['SchedulerCore::', 'JobQueue::', 'Scheduler::schedule_job_desync', 'WakeQueue', 'WakeThread', 'SchedulerThread::', 'FutureJob::', 'floor', 'baseline']), (RP.tr_base, None)])
+      (RL.try_rule, None), (RO.c03_dormant, None), (RO.c10_fetch, None), (RP.park_wake, None), (RQ.qd_wake_blocked, None), (RP.tr_roles, None), (RP.tr_dead, None), (RQ.qd_run, None), (RO.c10_thread, None), (RO.rs_strength, None, ['SchedulerCore']), (RU.ua_leak, None), (RE.eo, None, ['SchedulerCore::', 'JobQueue::', 'Scheduler::schedule_job_desync', 'WakeQueue', 'WakeThread', 'SchedulerThread::', 'FutureJob::', 'floor', 'baseline']), (RP.tr_base, None), (RE.eo, None, ['JobQueue::', 'Scheduler::schedule_job_desync'])])
 
 prop('C04', COMMON +
      'Decided: the sync strategy is chosen in one critical section and waits only when somebody owns or will wake the queue (TR-defer); the condition-variable handshake of the blocked caller (CV1, CV2); '
